@@ -11,6 +11,7 @@ package props
 import (
 	"encoding/json"
 	"fmt"
+	"strings"
 	"testing"
 
 	"pgregory.net/rapid"
@@ -234,4 +235,59 @@ func TestC02EveryCut(t *testing.T) {
 func mustScript(id int, pad json.RawMessage, ops ...Op) json.RawMessage {
 	b, _ := json.Marshal(ScriptParams{Conn: 0, ID: id, Pad: pad, Script: ops})
 	return b
+}
+
+// TestC02Concurrent: many connections served at the same time, each receiving large replies with
+// connection-specific content (a write in flight on one connection while others are being
+// encoded), on both transports. Framing and content are checked per connection by ExecProto.
+func TestC02Concurrent(t *testing.T) {
+	type cfg struct {
+		tr    string
+		conns int
+		size  int
+	}
+	cfgs := []cfg{{"pipe", 12, 200000}, {"unix", 12, 400000}, {"unix", 32, 700000}, {"pipe", 24, 70000}, {"unix", 6, 1500000}, {"unix", 48, 300000}}
+	if Thorough() {
+		cfgs = append(cfgs, cfg{"unix", 64, 1000000}, cfg{"pipe", 48, 500000}, cfg{"unix", 16, 3000000})
+	}
+	shard, nshards := Shard()
+	i := 0
+	reps := 2
+	next := func() (ProtoCase, bool) {
+		for i < len(cfgs)*reps {
+			k := i
+			i++
+			if k%nshards != shard {
+				continue
+			}
+			cf := cfgs[k%len(cfgs)]
+			c := ProtoCase{Ifaces: []string{"x.y"}, Transport: cf.tr, Origin: "C02Concurrent"}
+			for conn := 0; conn < cf.conns; conn++ {
+				cc := ConnCase{AbortAt: -1}
+				for call := 0; call < 3; call++ {
+					unit := fmt.Sprintf("<conn %d call %d \\\"q\\\" \\u0000 é>", conn, call)
+					var sb strings.Builder
+					sb.WriteString(`{"pad":"`)
+					for sb.Len() < cf.size {
+						sb.WriteString(unit)
+					}
+					sb.WriteString(`"}`)
+					sp := ScriptParams{Conn: conn, ID: call, Script: []Op{{Op: "reply", P: json.RawMessage(sb.String())}}}
+					b, _ := json.Marshal(sp)
+					cc.Frames = append(cc.Frames, EncodeCall("x.y.Big", b, false, false, false))
+				}
+				c.Conns = append(c.Conns, cc)
+			}
+			return c, true
+		}
+		return ProtoCase{}, false
+	}
+	p := propC02Proto
+	p.Check = func(c ProtoCase, st *Stats) error {
+		_, err := ExecProto(c, 3*protoBound)
+		st.Case(HashOf(len(c.Conns)*1000003+len(c.Conns[0].Frames[0])), true, nil, "concurrent-big-replies", "transport:"+c.Transport)
+		st.Count("connections", int64(len(c.Conns)))
+		return err
+	}
+	RunCases(t, p, "C02Concurrent", true, next)
 }
